@@ -604,6 +604,8 @@ def run_mt_stage(pid, tier, seed):
         "final_flushes_that_met_the_peers_close": tot("final_flushes_that_met_the_peers_close"),
         "tx_snapshots_checked_for_a_sleeping_connection_task": tot("tx_snapshots_checked_for_a_sleeping_connection_task"),
         "snapshots_with_the_connection_task_waiting_next_to_data": tot("snapshots_with_the_connection_task_waiting_next_to_data"),
+        "rx_snapshots_checked_for_a_sleeping_reader": tot("rx_snapshots_checked_for_a_sleeping_reader"),
+        "snapshots_with_a_waiting_reader_next_to_queued_data": tot("snapshots_with_a_waiting_reader_next_to_queued_data"),
         "lost_wakeups": tot("lost_wakeups"),
         "max_worker_threads_seen_by_readers": max([int(r.get("worker_threads_seen_by_readers", 0)) for r in runs] or [0]),
         "verdicts": sorted({str(r.get("verdict")) for r in runs}),
